@@ -24,6 +24,42 @@ type session struct {
 	cnt     map[[2]int]int
 	last    atomic.Int64
 	nDelays atomic.Int64
+	marks   map[string]bool
+}
+
+// mark records a harness-side milestone (not part of the trace) that gates may wait for.
+func (s *session) mark(m string) {
+	s.mu.Lock()
+	s.marks[m] = true
+	s.mu.Unlock()
+}
+
+func (s *session) has(tok string) bool {
+	s.mu.Lock()
+	defer s.mu.Unlock()
+	if s.marks[tok] {
+		return true
+	}
+	for _, t := range s.log {
+		if t == tok {
+			return true
+		}
+	}
+	return false
+}
+
+// gateAt blocks at a forced-schedule point until its release token exists.
+func (s *session) gateAt(key string) {
+	for _, g := range s.cs.Gates {
+		if g.At != key {
+			continue
+		}
+		dl := time.Now().Add(1500 * time.Millisecond)
+		for !s.has(g.Until) && time.Now().Before(dl) {
+			time.Sleep(100 * time.Microsecond)
+		}
+		s.last.Store(time.Now().UnixNano())
+	}
 }
 
 var evIndex = map[string]int{"join": 1, "hello": 2, "dial": 3, "accept": 4, "accepted": 5, "info": 6}
@@ -131,6 +167,13 @@ func (s *session) hook(ev string, a ...int) {
 		s.add(fmt.Sprintf("g.%d.%d.%d", arg(0), arg(1), arg(2)))
 	case "dial":
 		s.add(fmt.Sprintf("d.%d.%d.%d", arg(0), arg(1), arg(2)))
+	}
+	if len(s.cs.Gates) > 0 {
+		key := ev
+		for _, x := range a {
+			key += fmt.Sprintf(".%d", x)
+		}
+		s.gateAt(key)
 	}
 	if d := s.delay(ev, arg(0)); d > 0 {
 		s.nDelays.Add(1)
@@ -295,7 +338,7 @@ func runOnce(cs caseSpec, port int) (*caseResult, bool) {
 		res.Fails = append(res.Fails, d)
 	}
 	n, m := cs.N, cs.M
-	s := &session{cs: cs, cnt: map[[2]int]int{}}
+	s := &session{cs: cs, cnt: map[[2]int]int{}, marks: map[string]bool{}}
 	s.last.Store(time.Now().UnixNano())
 	p2p.SetVerifHook(s.hook)
 
@@ -321,12 +364,14 @@ func runOnce(cs caseSpec, port int) (*caseResult, bool) {
 			}
 			done <- d
 		}()
+		s.gateAt(fmt.Sprintf("connect.%d", id))
 		d.err = nets[id].Connect()
 		if d.err == nil {
 			s.add(fmt.Sprintf("r.%d", id))
 			ids, conns := nets[id].VerifConnTable()
 			d.at = tableSnap{ids, conns}
 		}
+		s.mark(fmt.Sprintf("snap.%d", id))
 	}
 	join := func(id int) error {
 		nw, err := p2p.Join(addr(port), addr(port+id), id, m)
@@ -435,11 +480,20 @@ func runOnce(cs caseSpec, port int) (*caseResult, bool) {
 		res.Counters["trace_signal_before_store"] = 1
 		res.Sbs = 1
 	}
+	// a failure of a session whose trace shows a wait loop ending between
+	// need[k]-- and the store of the accepted connection is attributed to that
+	// (known) defect of acceptConn; every other failure keeps its own signature.
 	classify := func(sig string) string {
 		if race {
 			return "c19-signal-before-store"
 		}
 		return sig
+	}
+	cause := func() string {
+		if race {
+			return "waitdone-while-accept-in-flight"
+		}
+		return "-"
 	}
 
 	res.End = "final"
@@ -458,7 +512,8 @@ func runOnce(cs caseSpec, port int) (*caseResult, bool) {
 		}
 	}
 	if len(errs) > 0 {
-		fail("c19-connect-error", map[string]any{"errors": errs})
+		fail(classify("c19-connect-error"), map[string]any{"kind": "connect-error", "errors": errs, "pattern_at": raceAt,
+			"cause": cause()})
 	}
 	if hang != "" {
 		var stuck []int
@@ -470,7 +525,8 @@ func runOnce(cs caseSpec, port int) (*caseResult, bool) {
 		if res.End == "final" {
 			res.End = "deadlock"
 		}
-		fail(classify("c19-hang"), map[string]any{"kind": "hang", "why": hang, "not_returned": stuck, "pattern_at": raceAt})
+		fail(classify("c19-hang"), map[string]any{"kind": "hang", "why": hang, "not_returned": stuck, "pattern_at": raceAt,
+			"cause": cause()})
 		return res, false
 	}
 	if res.End != "final" {
@@ -481,7 +537,7 @@ func runOnce(cs caseSpec, port int) (*caseResult, bool) {
 	for id := 0; id < n; id++ {
 		if ok, why := returned[id].at.complete(id, n, m); !ok {
 			fail(classify("c19-incomplete-at-return"), map[string]any{"kind": "incomplete-at-return", "party": id,
-				"why": why, "pattern_at": raceAt})
+				"why": why, "pattern_at": raceAt, "cause": cause()})
 			break
 		}
 	}
